@@ -25,7 +25,9 @@ TECHNIQUE = ("explicit-state breadth-first exploration of the orbit graph of eac
 CLAIM = ("For every root (default and every one-deviation configuration, over the stated alphabets, of Noh, Noh2, Sedov, Guderley, both 1D "
          "Riemann solvers incl. JWL, Coggeshall 1-9/11/12/18-21, EHEP, Mader, Kenamond 1-3, DSD cylindrical expansion, Blake, EP piston, the "
          "heat-rod family and Hutchens 1) the orbit graph under M*2, M/5, L*10, L/3, T*4, T/7 (Theta*5 where a temperature exists) is "
-         "explored breadth-first to word length 2 (quick) / 3 (thorough), nodes merged by canonical rounding; at every node the solver is "
+         "explored breadth-first to word length 2 (quick) / 3 (thorough), nodes merged by canonical rounding, and three extreme consistent "
+         "unit systems (lengths x 1e-7 with times x 1e-9; masses x 1e-24; lengths x 1e8 with times x 1e9 and masses x 1e24) are applied "
+         "to the root; at every node the solver is "
          "rebuilt from the rescaled inputs and every returned field is compared with the root's field times the factor its dimension "
          "dictates. Exhaustive over the stated graph; model checking is the right level because the property is an invariant over a "
          "group orbit and hard-wired non-scale-free constants show up only at particular magnitudes, which word depth reaches.")
